@@ -222,6 +222,7 @@ class HelicityModel:
     def __collect_symbols(self) -> set[sp.Symbol]:
         symbols: set[sp.Symbol] = self.expression.free_symbols  # type: ignore[assignment]
         symbols |= set(self.kinematic_variables)
+        symbols |= {par for par in self.parameter_defaults if isinstance(par, sp.Symbol)}
         for expr in self.kinematic_variables.values():
             symbols |= expr.free_symbols  # type: ignore[arg-type]
         return symbols
